@@ -166,6 +166,36 @@ fn gen_text(r: &mut Rng, d: u8, q: u8, n: u8, len: usize, style: u64) -> Vec<u8>
                 });
             }
         }
+        // marker-free stretches: quoted regions (and unquoted gaps) whose content holds neither the
+        // delimiter nor the newline, so whole 64-byte chunks carry nothing but the quote state;
+        // region lengths 0–5 chunks at every alignment, optional doubled quotes / CR inside
+        6 | 7 => {
+            let plain = |r: &mut Rng| -> u8 { *r.pick(&[b'x', b'a', b' ', b'1', b'\r', b'.']) };
+            while t.len() < len {
+                let gap = if style == 6 { r.usize_below(8) } else { r.usize_below(200) };
+                for _ in 0..gap {
+                    let b = plain(r);
+                    t.push(if b == d || b == n || b == q { b'x' } else { b });
+                }
+                if r.chance(1, 3) {
+                    t.push(*r.pick(&[d, n]));
+                }
+                t.push(q);
+                let span = *r.pick(&[0usize, 1, 2, 3, 4, 5]) * 64 + r.usize_below(70);
+                for _ in 0..span {
+                    if r.chance(1, 40) {
+                        t.push(q);
+                        t.push(q);
+                    } else {
+                        let b = plain(r);
+                        t.push(if b == d || b == n || b == q { b'y' } else { b });
+                    }
+                }
+                t.push(q);
+                t.push(*r.pick(&[d, n, d]));
+            }
+            t.truncate(len);
+        }
         // mostly delimiters/newlines, rare quotes (long unquoted / long quoted stretches)
         _ => {
             for _ in 0..len {
@@ -269,7 +299,7 @@ pub fn gen(tier: Tier, r: &mut Rng, emit: &mut dyn FnMut(String)) {
     let reps = if quick { 2 } else { 40 };
     for _ in 0..reps {
         for &len in &lens_small {
-            for style in 0..6 {
+            for style in 0..8 {
                 one(r, len, style, emit);
             }
         }
@@ -280,16 +310,16 @@ pub fn gen(tier: Tier, r: &mut Rng, emit: &mut dyn FnMut(String)) {
             0 => r.usize_below(70),
             1 => 60 + r.usize_below(10),
             2 => 120 + r.usize_below(20),
-            3 => r.usize_below(700),
+            3 => 130 + r.usize_below(600),
             _ => 64 * r.usize_below(8) + *r.pick(&[0usize, 1, 63]),
         };
-        one(r, len, (i % 6) as u64, emit);
+        one(r, len, (i % 8) as u64, emit);
     }
     let big: &[usize] = if quick { &[4095, 4096, 4097] } else { &[4095, 4096, 4097, 65535, 65536, 65537, 65600] };
     let big_reps = if quick { 2 } else { 6 };
     for _ in 0..big_reps {
         for &len in big {
-            for style in 0..6 {
+            for style in 0..8 {
                 one(r, len, style, emit);
             }
         }
